@@ -48,9 +48,10 @@ type Tap struct {
 	attack           map[string]bool // flows / conn addrs that belong to attackers (not real endpoints)
 	hostile          map[string]bool
 	hostileOpened    int
-	hostileFirstOpen time.Duration  // virtual time of the first hostile session the server answered
-	replied          map[string]int // bytes/datagrams sent by the server towards an attacker flow
-	kinds            map[string]int // segment kinds seen (reach)
+	undelivered      map[string]bool // datagrams (flow/dir/index) the fault plan dropped
+	hostileFirstOpen time.Duration   // virtual time of the first hostile session the server answered
+	replied          map[string]int  // bytes/datagrams sent by the server towards an attacker flow
+	kinds            map[string]int  // segment kinds seen (reach)
 	geo              []spec.SegGeo
 	record           bool
 	refServer        bool // the server address belongs to a reference peer, not to mieru
@@ -106,7 +107,7 @@ func newTap(w *World) *Tap {
 	t := &Tap{w: w, keys: map[string][32]byte{}, peeked: map[int]*refproto.Segment{}, streams: map[int]*streamTap{},
 		sess: map[string]*sessTap{}, flowSeen: map[string]int{}, lastKey: map[string][32]byte{}, lastUser: map[string]string{},
 		eff: map[string]*appctlpb.TrafficPattern{}, orig: map[string]*appctlpb.TrafficPattern{}, mtu: map[string]int{},
-		attack: map[string]bool{}, replied: map[string]int{}, kinds: map[string]int{}, wire: map[string][]byte{}, record: w.Spec.Dump || w.Spec.Attack != nil}
+		attack: map[string]bool{}, replied: map[string]int{}, kinds: map[string]int{}, wire: map[string][]byte{}, undelivered: map[string]bool{}, record: w.Spec.Dump || w.Spec.Attack != nil}
 	for _, u := range w.Spec.Server.Users {
 		t.creds = append(t.creds, refproto.Cred{User: u.Name, Password: u.Password})
 	}
@@ -295,7 +296,15 @@ func kindName(typ uint8) string {
 // traffic is not mieru's (destinations, SOCKS5 front ends, egress proxies).
 func (t *Tap) foreignAddr(addr string) bool {
 	s := &t.w.Spec.Server
-	return addr != net.JoinHostPort(s.IP, fmt.Sprint(s.TCPPort)) && addr != net.JoinHostPort(s.IP, fmt.Sprint(s.UDPPort))
+	if addr == net.JoinHostPort(s.IP, fmt.Sprint(s.TCPPort)) || addr == net.JoinHostPort(s.IP, fmt.Sprint(s.UDPPort)) {
+		return false
+	}
+	for _, pt := range append(append([]int{}, s.ExtraTCPPorts...), s.ExtraUDPPorts...) {
+		if addr == net.JoinHostPort(s.IP, fmt.Sprint(pt)) {
+			return false
+		}
+	}
+	return true
 }
 
 func (t *Tap) StreamOpen(c *simnet.ConnInfo) {
@@ -626,6 +635,11 @@ func (t *Tap) DatagramSent(d *simnet.Datagram) {
 		ci := t.clientOfAddr(d.Flow)
 		if t.record {
 			t.geo = append(t.geo, geoOf(s, d.Flow, ci, -1, int(d.Dir), d.Index))
+			if d.Fate.Drop {
+				// never reached its destination: a copy of it is not "traffic the server has
+				// already accepted" (only an attacker that intercepted it may use it)
+				t.undelivered[fmt.Sprintf("%s/%d/%d", d.Flow, d.Dir, d.Index)] = true
+			}
 			if len(t.wire) < 5000 {
 				t.wire[fmt.Sprintf("%s/%d/%d", d.Flow, d.Dir, d.Index)] = d.Data
 			}
@@ -964,7 +978,7 @@ func (t *Tap) datagramsOfClient(ci int) [][]byte {
 		}
 	}
 	for _, g := range t.geo {
-		if g.Client == ci && g.Dir == 0 && g.Index >= 0 && answered[fmt.Sprintf("%s/%d", g.Scope, g.Sess)] {
+		if g.Client == ci && g.Dir == 0 && g.Index >= 0 && answered[fmt.Sprintf("%s/%d", g.Scope, g.Sess)] && !t.undelivered[fmt.Sprintf("%s/%d/%d", g.Scope, g.Dir, g.Index)] {
 			if b, ok := t.wire[fmt.Sprintf("%s/%d/%d", g.Scope, g.Dir, g.Index)]; ok {
 				out = append(out, b)
 			}
